@@ -406,90 +406,95 @@ impl Sys {
         v
     }
 
+    /// read / exists / file_exists / directory_exists / resolve of one path against the layer model
+    fn check_path(&self, w: &World, layers: &[Tree], p: &str, loc: bool, out: &mut Vec<(String, String)>) {
+        let actual = self.actual(p, loc);
+        // ---- read
+        let expected: Result<Vec<u8>, &str> = match &actual {
+            None => Err("unsupported language"),
+            Some(a) => {
+                // a path with a trailing slash can only name a directory
+                let dir_only = a.ends_with('/');
+                let a = norm(a);
+                let mut r: Result<Vec<u8>, &str> = Err("not found");
+                for l in layers.iter().rev() {
+                    if dir_only {
+                        break;
+                    }
+                    if let Some(Node::File(b)) = l.get(&a) {
+                        r = if self.cfg.is_compressed(p) {
+                            self.cfg.decode_stored(b).map_err(|_| "undecodable")
+                        } else {
+                            Ok(b.clone())
+                        };
+                        break;
+                    }
+                }
+                r
+            }
+        };
+        let got = w.fs.read(p, loc);
+        match (&expected, &got) {
+            (Ok(e), Ok(g)) if e == g => {}
+            (Err(_), Err(_)) => {}
+            _ => out.push((
+                format!("read:{}", if expected.is_ok() { if got.is_ok() { "wrong-bytes" } else { "not-found-or-error" } } else { "unexpected-ok" }),
+                format!("read({:?}, localized={}) = {:?}, expected {:?}", p, loc, got.as_ref().map(|b| util::hex(&b[..b.len().min(24)])).map_err(|e| e.to_string()), expected.as_ref().map(|b| util::hex(&b[..b.len().min(24)]))),
+            )),
+        }
+        // ---- existence queries and resolve
+        let (mut ex, mut fex, mut dex) = (false, false, false);
+        let mut resolved: Option<PathBuf> = None;
+        if let Some(a) = &actual {
+            let dir_only = a.ends_with('/');
+            let a = norm(a);
+            for (i, l) in layers.iter().enumerate().rev() {
+                match l.get(&a) {
+                    Some(Node::File(_)) if dir_only => {}
+                    Some(Node::File(_)) => {
+                        ex = true;
+                        fex = true;
+                        if resolved.is_none() {
+                            resolved = Some(w.roots[i].join(&a));
+                        }
+                    }
+                    Some(Node::Dir) => {
+                        ex = true;
+                        dex = true;
+                        if resolved.is_none() {
+                            resolved = Some(w.roots[i].join(&a));
+                        }
+                    }
+                    None => {}
+                }
+            }
+        }
+        let q = |name: &str, got: Result<bool, String>, want: bool, out: &mut Vec<(String, String)>| match (actual.is_some(), got) {
+            (true, Ok(g)) if g == want => {}
+            (false, Err(_)) => {}
+            (_, g) => out.push((format!("{}:wrong", name), format!("{}({:?}, localized={}) = {:?}, expected {}", name, p, loc, g, if actual.is_some() { want.to_string() } else { "Err".into() }))),
+        };
+        q("exists", w.fs.exists(p, loc).map_err(|e| e.to_string()), ex, out);
+        q("file_exists", w.fs.file_exists(p, loc).map_err(|e| e.to_string()), fex, out);
+        q("directory_exists", w.fs.directory_exists(p, loc).map_err(|e| e.to_string()), dex, out);
+        let r = w.fs.resolve(p, loc);
+        let same = match (&r, &resolved) {
+            (None, None) => true,
+            (Some(a), Some(b)) => std::fs::canonicalize(a).ok() == std::fs::canonicalize(b).ok(),
+            _ => false,
+        };
+        if !same {
+            out.push(("resolve:wrong".into(), format!("resolve({:?}, localized={}) = {:?}, expected {:?}", p, loc, r, resolved)));
+        }
+    }
+
     fn observe_c12(&self, w: &World, top: &Tree, out: &mut Vec<(String, String)>) {
         let layers = self.layers_for(top);
         let mut paths: Vec<String> = self.cfg.write_paths();
         paths.extend(["d".to_string(), "d/e".to_string(), "nope".to_string(), "t/arch.bin".to_string(), format!("t/z{}", self.cfg.sfx()), "d/nope/x".to_string(), format!("e{}", self.cfg.sfx())]);
         for p in &paths {
             for loc in [false, true] {
-                let actual = self.actual(p, loc);
-                // ---- read
-                let expected: Result<Vec<u8>, &str> = match &actual {
-                    None => Err("unsupported language"),
-                    Some(a) => {
-                        // a path with a trailing slash can only name a directory
-                        let dir_only = a.ends_with('/');
-                        let a = norm(a);
-                        let mut r: Result<Vec<u8>, &str> = Err("not found");
-                        for l in layers.iter().rev() {
-                            if dir_only {
-                                break;
-                            }
-                            if let Some(Node::File(b)) = l.get(&a) {
-                                r = if self.cfg.is_compressed(p) {
-                                    self.cfg.decode_stored(b).map_err(|_| "undecodable")
-                                } else {
-                                    Ok(b.clone())
-                                };
-                                break;
-                            }
-                        }
-                        r
-                    }
-                };
-                let got = w.fs.read(p, loc);
-                match (&expected, &got) {
-                    (Ok(e), Ok(g)) if e == g => {}
-                    (Err(_), Err(_)) => {}
-                    _ => out.push((
-                        format!("read:{}", if expected.is_ok() { if got.is_ok() { "wrong-bytes" } else { "not-found-or-error" } } else { "unexpected-ok" }),
-                        format!("read({:?}, localized={}) = {:?}, expected {:?}", p, loc, got.as_ref().map(|b| util::hex(&b[..b.len().min(24)])).map_err(|e| e.to_string()), expected.as_ref().map(|b| util::hex(&b[..b.len().min(24)]))),
-                    )),
-                }
-                // ---- existence queries and resolve
-                let (mut ex, mut fex, mut dex) = (false, false, false);
-                let mut resolved: Option<PathBuf> = None;
-                if let Some(a) = &actual {
-                    let dir_only = a.ends_with('/');
-                    let a = norm(a);
-                    for (i, l) in layers.iter().enumerate().rev() {
-                        match l.get(&a) {
-                            Some(Node::File(_)) if dir_only => {}
-                            Some(Node::File(_)) => {
-                                ex = true;
-                                fex = true;
-                                if resolved.is_none() {
-                                    resolved = Some(w.roots[i].join(&a));
-                                }
-                            }
-                            Some(Node::Dir) => {
-                                ex = true;
-                                dex = true;
-                                if resolved.is_none() {
-                                    resolved = Some(w.roots[i].join(&a));
-                                }
-                            }
-                            None => {}
-                        }
-                    }
-                }
-                let q = |name: &str, got: Result<bool, String>, want: bool, out: &mut Vec<(String, String)>| match (actual.is_some(), got) {
-                    (true, Ok(g)) if g == want => {}
-                    (false, Err(_)) => {}
-                    (_, g) => out.push((format!("{}:wrong", name), format!("{}({:?}, localized={}) = {:?}, expected {}", name, p, loc, g, if actual.is_some() { want.to_string() } else { "Err".into() }))),
-                };
-                q("exists", w.fs.exists(p, loc).map_err(|e| e.to_string()), ex, out);
-                q("file_exists", w.fs.file_exists(p, loc).map_err(|e| e.to_string()), fex, out);
-                q("directory_exists", w.fs.directory_exists(p, loc).map_err(|e| e.to_string()), dex, out);
-                let r = w.fs.resolve(p, loc);
-                let same = match (&r, &resolved) {
-                    (None, None) => true,
-                    (Some(a), Some(b)) => std::fs::canonicalize(a).ok() == std::fs::canonicalize(b).ok(),
-                    _ => false,
-                };
-                if !same {
-                    out.push(("resolve:wrong".into(), format!("resolve({:?}, localized={}) = {:?}, expected {:?}", p, loc, r, resolved)));
-                }
+                self.check_path(w, &layers, p, loc, out);
             }
         }
         // ---- typed helpers ≡ codec ∘ read, configured per game
@@ -537,6 +542,75 @@ impl Sys {
         }
     }
 
+    /// list (every glob of the family) and subdirectories of one directory against the layer model
+    fn check_dir(&self, w: &World, layers: &[Tree], dir: &str, loc: bool, globs: &[Option<&str>], out: &mut Vec<(String, String)>) {
+        let actual = self.actual(dir, loc);
+        for g in globs.iter().cloned() {
+            let got = w.fs.list(dir, g, loc).map_err(|e| e.to_string());
+            match (&actual, &got) {
+                (None, Err(_)) => {}
+                (None, Ok(v)) => out.push(("list:unsupported-language-ok".into(), format!("list({:?}, {:?}, localized) = Ok({:?}) although the language is unsupported", dir, g, v))),
+                (Some(_), Err(e)) => out.push(("list:error".into(), format!("list({:?}, {:?}, localized={}) failed: {}", dir, g, loc, e))),
+                (Some(a), Ok(v)) => {
+                    let mut want: BTreeSet<String> = BTreeSet::new();
+                    for l in layers.iter() {
+                        want.extend(list_in(l, a, g));
+                    }
+                    let want: Vec<String> = want.into_iter().collect();
+                    if *v != want {
+                        let kind = if v.len() != want.len() {
+                            let mut s = v.clone();
+                            s.sort();
+                            s.dedup();
+                            if s.len() != v.len() {
+                                "duplicates"
+                            } else {
+                                "wrong-set"
+                            }
+                        } else {
+                            let mut s = v.clone();
+                            s.sort();
+                            if s == want {
+                                "unsorted"
+                            } else {
+                                "wrong-set"
+                            }
+                        };
+                        out.push((format!("list:{}", kind), format!("list({:?}, {:?}, localized={}) = {:?}, expected {:?}", dir, g, loc, v, want)));
+                    }
+                    for p in v {
+                        if !matches!(w.fs.exists(p, false), Ok(true)) {
+                            out.push(("list:listed-path-does-not-exist".into(), format!("list({:?}, {:?}) contains {:?} but exists() denies it", dir, g, p)));
+                        }
+                    }
+                    if loc {
+                        // a localized listing equals the unlocalized listing of the localized directory
+                        let other = w.fs.list(a, g, false).map_err(|e| e.to_string());
+                        if other.as_ref().ok() != Some(v) {
+                            out.push(("list:localized-differs".into(), format!("list({:?}, {:?}, localized) = {:?} but list({:?}, unlocalized) = {:?}", dir, g, v, a, other)));
+                        }
+                    }
+                }
+            }
+        }
+        // sub-directories
+        let got = w.fs.subdirectories(dir, loc).map_err(|e| e.to_string());
+        match (&actual, &got) {
+            (None, Err(_)) => {}
+            (Some(a), Ok(v)) => {
+                let mut want: BTreeSet<String> = BTreeSet::new();
+                for l in layers.iter() {
+                    want.extend(subdirs_in(l, a));
+                }
+                let want: Vec<String> = want.into_iter().collect();
+                if *v != want {
+                    out.push(("subdirectories:wrong".into(), format!("subdirectories({:?}, localized={}) = {:?}, expected {:?}", dir, loc, v, want)));
+                }
+            }
+            (a, g) => out.push(("subdirectories:error".into(), format!("subdirectories({:?}, localized={}) = {:?} (localized path {:?})", dir, loc, g, a))),
+        }
+    }
+
     fn observe_c13(&self, w: &World, top: &Tree, out: &mut Vec<(String, String)>) {
         let layers = self.layers_for(top);
         let dirs = ["", "d", "d/", "d/e", "nope", "a", "t"];
@@ -546,71 +620,7 @@ impl Sys {
                 if loc && dir.is_empty() {
                     continue;
                 }
-                let actual = self.actual(dir, loc);
-                for g in globs {
-                    let got = w.fs.list(dir, g, loc).map_err(|e| e.to_string());
-                    match (&actual, &got) {
-                        (None, Err(_)) => {}
-                        (None, Ok(v)) => out.push(("list:unsupported-language-ok".into(), format!("list({:?}, {:?}, localized) = Ok({:?}) although the language is unsupported", dir, g, v))),
-                        (Some(_), Err(e)) => out.push(("list:error".into(), format!("list({:?}, {:?}, localized={}) failed: {}", dir, g, loc, e))),
-                        (Some(a), Ok(v)) => {
-                            let mut want: BTreeSet<String> = BTreeSet::new();
-                            for l in &layers {
-                                want.extend(list_in(l, a, g));
-                            }
-                            let want: Vec<String> = want.into_iter().collect();
-                            if *v != want {
-                                let kind = if v.len() != want.len() {
-                                    let mut s = v.clone();
-                                    s.sort();
-                                    s.dedup();
-                                    if s.len() != v.len() {
-                                        "duplicates"
-                                    } else {
-                                        "wrong-set"
-                                    }
-                                } else {
-                                    let mut s = v.clone();
-                                    s.sort();
-                                    if s == want {
-                                        "unsorted"
-                                    } else {
-                                        "wrong-set"
-                                    }
-                                };
-                                out.push((format!("list:{}", kind), format!("list({:?}, {:?}, localized={}) = {:?}, expected {:?}", dir, g, loc, v, want)));
-                            }
-                            for p in v {
-                                if !matches!(w.fs.exists(p, false), Ok(true)) {
-                                    out.push(("list:listed-path-does-not-exist".into(), format!("list({:?}, {:?}) contains {:?} but exists() denies it", dir, g, p)));
-                                }
-                            }
-                            if loc {
-                                // a localized listing equals the unlocalized listing of the localized directory
-                                let other = w.fs.list(a, g, false).map_err(|e| e.to_string());
-                                if other.as_ref().ok() != Some(v) {
-                                    out.push(("list:localized-differs".into(), format!("list({:?}, {:?}, localized) = {:?} but list({:?}, unlocalized) = {:?}", dir, g, v, a, other)));
-                                }
-                            }
-                        }
-                    }
-                }
-                // sub-directories
-                let got = w.fs.subdirectories(dir, loc).map_err(|e| e.to_string());
-                match (&actual, &got) {
-                    (None, Err(_)) => {}
-                    (Some(a), Ok(v)) => {
-                        let mut want: BTreeSet<String> = BTreeSet::new();
-                        for l in &layers {
-                            want.extend(subdirs_in(l, a));
-                        }
-                        let want: Vec<String> = want.into_iter().collect();
-                        if *v != want {
-                            out.push(("subdirectories:wrong".into(), format!("subdirectories({:?}, localized={}) = {:?}, expected {:?}", dir, loc, v, want)));
-                        }
-                    }
-                    (a, g) => out.push(("subdirectories:error".into(), format!("subdirectories({:?}, localized={}) = {:?} (localized path {:?})", dir, loc, g, a))),
-                }
+                self.check_dir(w, &layers, dir, loc, &globs, out);
             }
         }
     }
@@ -681,13 +691,50 @@ impl System for Sys {
         if want.is_err() {
             wit |= 4; // write rejected (ancestor is a file / target is a directory / unsupported language)
         }
-        let r = util::catch(|| -> Result<(Result<(), String>, Vec<Tree>), String> {
+        // paths touched by the call, for the same-instance observers
+        let op_path: &str = match op {
+            Op::Write(p, _, _) | Op::CreateDir(p, _) | Op::WriteArchive(p, _) | Op::WriteTextArchive(p, _) => p,
+        };
+        let mut related_dirs: Vec<String> = vec![String::new()];
+        {
+            let cs = comps(op_path);
+            for i in 1..cs.len() {
+                related_dirs.push(cs[..i].join("/"));
+            }
+        }
+        let globs: [Option<&str>; 5] = [None, Some("*"), Some("*.bin"), Some("**/*.txt"), Some("**/*")];
+        let r = util::catch(|| -> Result<(Result<(), String>, Vec<Tree>, Vec<(String, String)>), String> {
             let w = self.build_world(&s.top)?;
+            // queries BEFORE the call on the same instance (a cache filled here must not go stale)
+            for loc in [false, true] {
+                let _ = w.fs.read(op_path, loc);
+                let _ = w.fs.file_exists(op_path, loc);
+                for d in &related_dirs {
+                    let _ = w.fs.list(d, None, loc);
+                    let _ = w.fs.subdirectories(d, loc);
+                }
+            }
             let r = self.apply_real(&w, op);
             let snaps: Vec<Tree> = w.roots.iter().map(|r| snapshot(r)).collect();
-            Ok((r, snaps))
+            // queries AFTER the call on the same instance, judged against the layers as they are now on disk
+            let mut post = Vec::new();
+            let layers_now: Vec<Tree> = snaps.clone();
+            for loc in [false, true] {
+                if self.which != Which::C13 {
+                    self.check_path(&w, &layers_now, op_path, loc, &mut post);
+                }
+                if self.which != Which::C12 {
+                    for d in &related_dirs {
+                        if loc && d.is_empty() {
+                            continue;
+                        }
+                        self.check_dir(&w, &layers_now, d, loc, &globs, &mut post);
+                    }
+                }
+            }
+            Ok((r, snaps, post))
         });
-        let (res, snaps) = match r {
+        let (res, snaps, post) = match r {
             Err(p) => return Step::Violation { sig: format!("panic@{}:{}", p.location, kind), summary: format!("{:?} panicked: {}", op, p.message), witnesses: wit },
             Ok(Err(e)) => return Step::Violation { sig: "machinery:world".into(), summary: e, witnesses: wit },
             Ok(Ok(x)) => x,
@@ -714,6 +761,9 @@ impl System for Sys {
                 if files(&top_disk) != files(&s.top) || !dirs_kept {
                     return fail(format!("{}:failed-call-changed-files", kind), format!("{:?} failed and changed the top layer: {} — before {}", op, tree_json(&top_disk), tree_json(&s.top)));
                 }
+                if let Some((sig, summary)) = post.into_iter().next() {
+                    return fail(format!("same-instance:{}", sig), format!("queries around the failed {:?} on one filesystem instance: {}", op, summary));
+                }
                 return Step::Next { state: St { top: top_disk }, witnesses: wit };
             }
             Ok(c) => c,
@@ -733,6 +783,9 @@ impl System for Sys {
         }
         if top_disk != model {
             return fail(format!("{}:top-layer", kind), format!("after {:?} the top layer holds {} — expected {}", op, tree_json(&top_disk), tree_json(&model)));
+        }
+        if let Some((sig, summary)) = post.into_iter().next() {
+            return fail(format!("same-instance:{}", sig), format!("queries before and after {:?} on one filesystem instance: {}", op, summary));
         }
         Step::Next { state: St { top: model }, witnesses: wit }
     }
@@ -798,8 +851,9 @@ fn lower_choices(probe: &Config) -> Vec<(&'static str, Tree)> {
     let sfx = probe.sfx();
     let mut v: Vec<(&'static str, Tree)> = Vec::new();
     v.push(("empty", Tree::new()));
-    v.push(("a", [("a".to_string(), file(b"lowA"))].into_iter().collect()));
-    v.push(("a+d/a", [("a".to_string(), file(b"lowA")), ("d".to_string(), Node::Dir), ("d/a".to_string(), file(b"lowDA")), ("d/x.bin".to_string(), file(b"x")), ("d/y.txt".to_string(), file(b"y")),
+    // "a" holds exactly payload 1 ([7]): writing the same bytes on top must still create the file
+    v.push(("a", [("a".to_string(), file(&[7]))].into_iter().collect()));
+    v.push(("a+d/a", [("a".to_string(), file(b"lowA")), ("d".to_string(), Node::Dir), ("d/a".to_string(), file(&[7])), ("d/x.bin".to_string(), file(b"x")), ("d/y.txt".to_string(), file(b"y")),
         // siblings whose names extend a directory name with characters that sort below '/':
         // string order and path-component order differ on them
         ("d-old".to_string(), file(b"o")), ("d.bin".to_string(), file(b"b")), ("d e".to_string(), Node::Dir), ("d e/f".to_string(), file(b"f"))].into_iter().collect()));
@@ -811,7 +865,8 @@ fn lower_choices(probe: &Config) -> Vec<(&'static str, Tree)> {
             ("d/e".to_string(), Node::Dir),
             ("d/e/c".to_string(), file(b"lowC")),
             ("d/e/z.txt".to_string(), file(b"z")),
-            (format!("d/b{}", sfx), file(&probe.encode_stored(b"lower compressed payload"))),
+            // decompresses to payload 2 (40 × 0x41)
+            (format!("d/b{}", sfx), file(&probe.encode_stored(&[0x41; 40]))),
         ]
         .into_iter()
         .collect(),
